@@ -4387,13 +4387,14 @@ func (r *RoutingPolicy) AddDefinedSet(s DefinedSet, replace bool) error {
 	if m, ok := r.definedSetMap[s.Type()]; !ok {
 		return fmt.Errorf("invalid defined-set type: %d", s.Type())
 	} else {
-		if d, ok := m[s.Name()]; ok && !replace {
-			if err := d.Append(s); err != nil {
-				return err
+		if d, ok := m[s.Name()]; ok {
+			// keep the object that the conditions of the statements point to
+			if replace {
+				return d.Replace(s)
 			}
-		} else {
-			m[s.Name()] = s
+			return d.Append(s)
 		}
+		m[s.Name()] = s
 	}
 	return nil
 }
